@@ -36,8 +36,11 @@ for p in sorted(d.glob("*.src")):
     # (UTF-8, universal newlines) - the same content a Python user holds after reading the file
     with open(p, encoding="utf-8", errors="surrogateescape", newline=None) as fh:
         text = fh.read()
-    a = outcome(lambda: XonshParser.parse_file(p))
-    b = outcome(lambda: XonshParser.parse_string(text, mode="exec"))
+    import re as _re
+    mv = _re.search(r"\.v(\d)(\d+)\.", p.name)
+    pv = (int(mv.group(1)), int(mv.group(2))) if mv else None
+    a = outcome(lambda: XonshParser.parse_file(p, py_version=pv))
+    b = outcome(lambda: XonshParser.parse_string(text, mode="exec", py_version=pv))
     res.append([p.name, a, b])
 json.dump(res, sys.stdout)
 '''
@@ -77,6 +80,10 @@ def build_inputs(tier):
         for s in INVALID_SNIPPETS[:25]:
             files.append(("odd-separator", f"import os  # {sep} c\n{sep}\n" + s))
         files.append(("odd-separator-valid", f"x = 1  # {sep}\n{sep}\ny = 2\n"))
+    # the options must reach both entry points: version-gated syntax under an older py_version
+    for s in ["try:\n    pass\nexcept* E:\n    pass\n", "type X = int\n", "def f[T](a): pass\n", "class B[T]: pass\n", "x = 1\n"]:
+        for v in ("v38", "v310", "v311", "v312"):
+            files.append((f"gated@{v}", s))
     # a file that begins with the UTF-8 byte order mark: both entry points must see (or both must not see) U+FEFF
     for s in ["x = 1\n", "x = 1 +\n", "import os\ny = (a 1)\n", "s = 'é'\n"] + list(INVALID_SNIPPETS[:10]):
         files.append(("bom", "\ufeff" + s))
@@ -89,7 +96,7 @@ def build_inputs(tier):
         except UnicodeEncodeError:
             return False  # a lone surrogate cannot be the content of a UTF-8 file
 
-    return [f for f in files if encodable(f[1]) and "\r" not in f[1].replace("\r\n", "") and not (f[1] in seen or seen.add(f[1]))]
+    return [f for f in files if encodable(f[1]) and "\r" not in f[1].replace("\r\n", "") and not ((f[0].split("@")[-1] if "@" in f[0] else "", f[1]) in seen or seen.add((f[0].split("@")[-1] if "@" in f[0] else "", f[1])))]
 
 
 def compare(a, b):
@@ -110,7 +117,8 @@ def run_children(files, envs):
     tmp = Path(tempfile.mkdtemp(prefix="xv.c12.", dir="/var/tmp"))
     try:
         for i, (kind, s) in enumerate(files):
-            (tmp / f"{i:05d}.src").write_bytes(s.encode("utf-8", "surrogateescape"))
+            tag = kind.split("@", 1)[1] if "@" in kind else ""  # e.g. "gated@v310": parse both ways with py_version=(3, 10)
+            (tmp / (f"{i:05d}.{tag}.src" if tag else f"{i:05d}.src")).write_bytes(s.encode("utf-8", "surrogateescape"))
         child = tmp / "child.py"
         child.write_text(CHILD)
         results = {}
